@@ -137,16 +137,16 @@ theorem inlNodes_syn (hq : q identityOp = true) (hid : findFunc tbl identityOp =
       have hff : findFunc tbl op = some f := by simpa [hcrit] using hsel
       have hinst := instantiate_syn q hq tbl hid f (ht op f hff h1.1.1) attrs (substIns σ ins) st.next
       obtain ⟨d1, d2, d3⟩ := hd (st.addInlined op (instantiate f attrs (substIns σ ins) st.next).next
-        (instantiate f attrs (substIns σ ins) st.next).bad) _ hinst
+        ((instantiate f attrs (substIns σ ins) st.next).bad || nouts.length != f.outputs.length)) _ hinst
       obtain ⟨k1, k2, k3⟩ := inlNodes_syn hq hid ht hd ns
         (deeper (st.addInlined op (instantiate f attrs (substIns σ ins) st.next).next
-          (instantiate f attrs (substIns σ ins) st.next).bad) (instantiate f attrs (substIns σ ins) st.next).nodes).1
+          ((instantiate f attrs (substIns σ ins) st.next).bad || nouts.length != f.outputs.length)) (instantiate f attrs (substIns σ ins) st.next).nodes).1
         (nouts.zip ((instantiate f attrs (substIns σ ins) st.next).outvals.map
           (deeper (st.addInlined op (instantiate f attrs (substIns σ ins) st.next).next
-          (instantiate f attrs (substIns σ ins) st.next).bad) (instantiate f attrs (substIns σ ins) st.next).nodes).2.2.app) ++ σ)
+          ((instantiate f attrs (substIns σ ins) st.next).bad || nouts.length != f.outputs.length)) (instantiate f attrs (substIns σ ins) st.next).nodes).2.2.app) ++ σ)
         (outs.map (fun o => ((nouts.zip ((instantiate f attrs (substIns σ ins) st.next).outvals.map
           (deeper (st.addInlined op (instantiate f attrs (substIns σ ins) st.next).next
-          (instantiate f attrs (substIns σ ins) st.next).bad) (instantiate f attrs (substIns σ ins) st.next).nodes).2.2.app)).lookup o).getD o))
+          ((instantiate f attrs (substIns σ ins) st.next).bad || nouts.length != f.outputs.length)) (instantiate f attrs (substIns σ ins) st.next).nodes).2.2.app)).lookup o).getD o))
         ⟨h1.2, h2.2, h3.2⟩
       refine ⟨?_, ?_, ?_⟩
       · rw [opsAllNodes_append, d1, k1]; rfl
